@@ -507,6 +507,14 @@ func main() {
 	if workers < 1 {
 		workers = 1
 	}
+	// the phase stream (phases.go) runs in the parent while the workers run: its texts have no loop that
+	// iterates, so it needs no step budget (the budget hook is process-global and stays off here)
+	nBasePh := 10
+	if a.Tier == "thorough" {
+		nBasePh = 400
+	}
+	phCh := make(chan []caseRec, 1)
+	go func() { phCh <- phRecs(a.Seed, nBasePh) }()
 	self, _ := os.Executable()
 	var cmds []*exec.Cmd
 	var files []string
@@ -582,6 +590,12 @@ func main() {
 		}
 		out.Case(r.Input, r.Impl+"\t"+r.Anoms+"\t"+r.Sources, r.Nontriv, r.Tags...)
 	}
+	phs := <-phCh
+	for _, r := range phs {
+		out.Case(r.Input, r.Impl+"\t"+r.Anoms+"\t"+r.Sources, r.Nontriv, r.Tags...)
+	}
+	out.Extra["phase_stream_sessions"] = len(phs)
+	out.Extra["phase_stream_rule"] = "phase stream: base texts of the language of coq/Model/Phases.v (ints, false, names, def, begin, failk, fn, for with a false test and optional label, break/continue with optional label) x read faults at EVERY token position (stray closer, malformed atom inserted; every closer deleted / replaced by the other one) x compile faults at EVERY sub-form (7 malformed special forms) x run faults (failk raising at EVERY k; EVERY sub-form replaced by an unbound name), each followed by a 12-text battery; one case = one session; tags ph:*"
 	for i, smp := range out.Samples {
 		if len(smp) > 400 {
 			out.Samples[i] = smp[:400] + " ..."
@@ -672,6 +686,7 @@ func replay(path string) {
 		Names  []string `json:"names"`
 		Load   bool     `json:"load_run"`
 		Expect []string `json:"expected"` // outcomes of the reference semantics per text ("" / FUEL / UNSPEC = not compared)
+		Phase  bool     `json:"phase_stream"`
 	}
 	b, err := os.ReadFile(path)
 	if err != nil {
@@ -681,6 +696,31 @@ func replay(path string) {
 	if err := json.Unmarshal(b, &w); err != nil || len(w.Texts) == 0 {
 		fmt.Println("replay: no texts in", path)
 		os.Exit(2)
+	}
+	if w.Phase {
+		// a session of the phase stream: outcome@at-rest,loop depth,data depth per text against Phases.psession_obs
+		ps := &phSession{k: w.Failat, loadRun: w.Load}
+		for _, t := range w.Texts {
+			ps.texts = append(ps.texts, phText{t, "f"})
+		}
+		obs := runPhSession(ps)
+		fmt.Printf("implementation: %s\n", strings.Join(obs, " ;; "))
+		fmt.Printf("model         : %s\n", strings.Join(w.Expect, " ;; "))
+		bad := 0
+		for i, e := range w.Expect {
+			if i >= len(obs) || strings.HasPrefix(e, "UNSPEC") || strings.HasPrefix(e, "FUEL") {
+				break
+			}
+			if obs[i] != e {
+				fmt.Printf("  ANOMALY phase text=%d %q: implementation %s, model %s\n", i, w.Texts[i], obs[i], e)
+				bad++
+				break
+			}
+		}
+		if bad > 0 {
+			os.Exit(1)
+		}
+		return
 	}
 	if len(w.Names) == 0 {
 		w.Names = []string{"x", "y", "f"}
